@@ -7,7 +7,7 @@ CONSTANTS
   MaxClock = 1
   Limit <- Limit_Sim
   Ops = {"create", "mtagauto", "createfault", "attr", "link", "delete"}
-  Faults = {"DuplicateName", "BadName", "NoneType", "WrongKind", "ForeignBlock", "NotMember", "Required", "NotFound"}
+  Faults = {"DuplicateName", "BadName", "NoneType", "WrongKind", "ForeignBlock", "NotMember", "Required", "NotFound", "BadLinkType"}
   Script <- Script_Links
   CopyKeep = {}
 VIEW View
